@@ -501,7 +501,7 @@ def full_stack_sub_case(tid, opener, nsubs, offline, close, listen_late, units_f
             errors.append("listen: %r" % (e,))
     if not listen_late:
         listen()
-    if offline:
+    if offline is True:
         sel = fw.selected_links(opener)
         if sel:
             fw.do(("Cut", "-", sel[0]))
@@ -531,6 +531,18 @@ def full_stack_sub_case(tid, opener, nsubs, offline, close, listen_late, units_f
         except Exception as e:
             errors.append("write/close: %r" % (e,))
         fw.run_auto_timers()
+    if offline == "acks-lost":
+        # everything the opener wrote reaches the other side; what comes back (acks, the CLOSE answers) is lost with the link:
+        # the opener sends all of it again on the next connection, and the other side must recognise it
+        sel = fw.selected_links(opener)
+        if sel:
+            link = fw.links[sel[0]]
+            e = fw.end_of(link, opener)
+            for _ in range(200):
+                if not link.can_deliver(e):
+                    break
+                fw.deliver_unit(link, e)
+            fw.do(("Cut", "-", sel[0]))
     rested = fw.run_out() and rested
     if listen_late:
         listen()
@@ -1241,7 +1253,8 @@ def run(prop, tier):
             n = 0
             for opener in ("L", "F"):
                 for (nsubs, offline, close, late) in ((1, False, True, False), (2, True, True, False), (3, True, False, False), (2, True, True, True),
-                                                      (1, True, True, False), (2, False, False, True)):
+                                                      (1, True, True, False), (2, False, False, True), (1, "acks-lost", True, False),
+                                                      (2, "acks-lost", False, False), (2, "acks-lost", True, False)):
                     for uf in (False, True):
                         tid += 1
                         n += 1
